@@ -326,6 +326,50 @@ func evalCase(cs Case) (class, msg string) {
 	return "", ""
 }
 
+// runAccessors: accessor consistency on patterns with many wildcards (counter widths): ParamsLen()
+// equals the number of wildcards, Hostname()+Path() equals Pattern(); a pattern beyond the parameter
+// limit is rejected, never accepted with a wrapped count.
+func runAccessors(c *mc.Ctx, r *mc.Result) {
+	if c.Shard != 0 {
+		return
+	}
+	ns := []int{1, 2, 255, 256, 257, 65534, 65535, 65536, 65537}
+	r.Bounds["accessors"] = fmt.Sprintf("patterns with %v wildcards, path-only and with a hostname, through NewRoute and Handle", ns)
+	for _, n := range ns {
+		for _, host := range []bool{false, true} {
+			pat := strings.Repeat("/{p}", n)
+			if host {
+				pat = "{h}.x" + strings.Repeat("/{p}", n-1) + "/"
+			}
+			f, _ := fox.New()
+			for _, via := range []string{"NewRoute", "Handle"} {
+				var rt *fox.Route
+				var err error
+				if via == "NewRoute" {
+					rt, err = f.NewRoute(pat, func(fox.Context) {})
+				} else {
+					rt, err = f.Handle("GET", pat, func(fox.Context) {})
+				}
+				r.Evaluations++
+				r.DistinctNontrivial++
+				desc := fmt.Sprintf("%s of a pattern with %d wildcards (hostname: %v)", via, n, host)
+				switch {
+				case n > 65535:
+					if err == nil {
+						r.Violate("accessors", "wrong-accessors", fmt.Sprintf("%s is accepted and reports ParamsLen()=%d", desc, rt.ParamsLen()), n)
+					} else if !errors.Is(err, fox.ErrInvalidRoute) {
+						r.Violate("accessors", "invalid-accepted", fmt.Sprintf("%s returned %v, want an error matching ErrInvalidRoute", desc, err), n)
+					}
+				case err != nil:
+					r.Violate("accessors", "valid-rejected", fmt.Sprintf("%s returned %v", desc, err), n)
+				case rt.ParamsLen() != n || rt.Hostname()+rt.Path() != rt.Pattern() || rt.Pattern() != pat:
+					r.Violate("accessors", "wrong-accessors", fmt.Sprintf("%s: ParamsLen()=%d, len(Hostname()+Path())=%d, len(Pattern())=%d, pattern length %d", desc, rt.ParamsLen(), len(rt.Hostname()+rt.Path()), len(rt.Pattern()), len(pat)), n)
+				}
+			}
+		}
+	}
+}
+
 // clientIP in every handler kind, in sequences on one router.
 func runHandlers(c *mc.Ctx, r *mc.Result) {
 	if c.Shard != 0 {
@@ -565,6 +609,16 @@ func init() {
 				}
 				_, msg := evalCase(cs)
 				return msg
+			}},
+			{Name: "accessors", Run: runAccessors, Replay: func(c *mc.Ctx, raw json.RawMessage) string {
+				r := mc.NewResult()
+				cc := *c
+				cc.Shard = 0
+				runAccessors(&cc, r)
+				if len(r.Violations) > 0 {
+					return r.Violations[0].Msg
+				}
+				return ""
 			}},
 			{Name: "shared", Run: runShared, Replay: func(c *mc.Ctx, raw json.RawMessage) string {
 				r := mc.NewResult()
